@@ -48,13 +48,13 @@ from phonopy.units import Bohr, Hartree
 def parse_set_of_forces(num_atoms, forces_filenames, verbose=True):
     """Parse forces from output files."""
     hook = "ATOM                     X                   Y                   Z"
+    is_parsed = True
     force_sets = []
     for i, filename in enumerate(forces_filenames):
         if verbose:
             sys.stdout.write("%d. " % (i + 1))
         crystal_forces = iter_collect_forces(filename, num_atoms, hook, [2, 3, 4])
         if check_forces(crystal_forces, num_atoms, filename, verbose=verbose):
-            is_parsed = True
             drift_force = get_drift_forces(
                 crystal_forces, filename=filename, verbose=verbose
             )
